@@ -59,12 +59,12 @@ PROPS = {
         ],
         'assumptions': [
             'everything type_description does before the formatting decision (Transformer construction, policies, resolve) is abstracted by rule R8-head: its result is an arbitrary string named by an uninterpreted spec function',
-            'U-DESCTEXT (type_def_type_description, tuple_type_description, variant_type_def_type_description, variant_type_description, fields_type_description, field_type_description): relative to what Transformer::resolve returns for each child (ASSUMED contract, uninterpreted relation is_descr), under assumed std contracts for Peekable (next / peek), slice.iter().all, format! with plain holes (fmt1 / fmt2), String == &str, String::to_string; the Box test of a field (Option::map + str::contains) is an opaque call; the primitive name table is assumed here (proved by the Kani harness primnames_table)',
+            'U-DESCTEXT (ty_description, type_def_type_description, tuple_type_description, variant_type_def_type_description, variant_type_description, fields_type_description, field_type_description): relative to what Transformer::resolve returns for each child (ASSUMED contract, uninterpreted relation is_descr), under assumed std contracts for Peekable (next / peek), slice.iter().all, format! with plain holes (fmt1 / fmt2), String == &str, String::to_string; the Box test of a field (Option::map + str::contains) is an opaque call; the primitive name table is assumed here (proved by the Kani harness primnames_table)',
             'memory allocation for the output String succeeds',
         ],
         'not_covered': [
             'termination of the description on cyclic graphs and the expand-once policy (Transformer::resolve: RefCell<HashMap>, function pointers)',
-            'faithfulness of the text outside the six functions of U-DESCTEXT: the struct / enum prefix and the name in front of a definition (ty_description), names with generic arguments (type_name_with_type_params beyond its Primitive arm)',
+            'faithfulness of the text outside the seven functions of U-DESCTEXT: names with generic arguments (type_name_with_type_params beyond its Primitive arm; opaque, uninterpreted name_text)',
         ],
     },
     'C12': {
